@@ -21,7 +21,7 @@ ASSUMPTIONS = [
   "which implements IEEE 1800-2017 clause 11 sizing (self-/context-determined operands, casts, concatenation) and is unsigned-only; constructs outside the subset are a machinery error, not a verdict",
   "the interpreter is calibrated three ways: PyMTL simulation, the independent IR reference (vt/irref.py) and the interpreted text must all agree (any PyMTL-vs-reference disagreement is a machinery error)",
   "designs the backend refuses to translate are outside the property (counted); syntactic validity is decided for the subset grammar only",
-  "hand-written statement family (vt/stmtfam.py, 66 designs): each has its own reference function in plain ints; a disagreement between the reference and the PyMTL simulation is a machinery error, "
+  "hand-written statement family (vt/stmtfam.py, 57 designs): each has its own reference function in plain ints; a disagreement between the reference and the PyMTL simulation is a machinery error, "
   "the interpreted text is compared with both on two input sequences of 336 and 120 steps",
   "inputs: all input vectors (thinned to 24 sequences for sequential E2 designs, 96 vectors for the expression family)",
 ]
